@@ -2,7 +2,7 @@
 //! Engine E3: all shape pairs × operators × operand kinds × ownership forms, bitwise oracle.
 use crate::common::enumerate::PRIMES;
 use crate::common::{guard, Run};
-use compute::linalg::{Matrix, Vector};
+use compute::linalg::{Dot, Matrix, Vector};
 use rayon::prelude::*;
 
 fn left(n: usize) -> Vec<f64> {
@@ -217,7 +217,28 @@ pub fn run(run: &Run) {
                 run.violate("MatVec/operand-modified", || format!("Matrix {}x{} {} Vector {}", r, c, OPS[op], n));
             }
         }
+        // the same operands after other public calls that use them (products, transposes, a rejected
+        // operation): broadcasting is a function of its operands only
+        let _ = guard(|| (&m).dot(&v));
+        let _ = guard(|| (&m).t_dot(&v));
+        let _ = guard(|| (&v).dot(&m));
+        let _ = guard(|| m.t());
+        for op in [0usize, 3] {
+            let want_mv = model(op, &mvv, r, c, &vv, 1, n);
+            let want_vm = model(op, &vv, 1, n, &mvv, r, c);
+            run.cases(2);
+            run.trs(6);
+            let res = guard(|| binop_forms!(op, 3, m, v));
+            let desc = || format!("Matrix {}x{} {} Vector len {} (after dot / t_dot / t on the same operands)", r, c, OPS[op], n);
+            judge(run, "MatVec", op, &desc, res, &want_mv, &leaf_name(r, c, 1, n));
+            let _ = guard(|| (&m).dot(&v));
+            let res = guard(|| binop_forms!(op, 3, v, m));
+            let desc = || format!("Vector len {} {} Matrix {}x{} (after dot on the same operands)", n, OPS[op], r, c);
+            judge(run, "VecMat", op, &desc, res, &want_vm, &leaf_name(1, n, r, c));
+            run.regime("after-other-calls");
+        }
     });
+    run.require_regime("after-other-calls");
     for l in ["rows=cols=", "rows=cols<", "rows=cols>", "rows<cols=", "rows>cols=", "rows<cols>", "rows>cols<", "rows<cols</scalar", "rows>cols>/scalar"] {
         run.require_regime(&format!("leaf:{}", l));
     }
